@@ -5,6 +5,7 @@ import json, os, subprocess, sys
 def sh(cmd, **kw): return subprocess.run(cmd, shell=True, text=True, stdout=subprocess.PIPE, stderr=subprocess.STDOUT, **kw)
 assert not sh('git -C /repo status --short').stdout.strip(), '/repo is not clean'
 rows = []
+hist = json.load(open('/verif/seeded/HISTORY.json'))
 only = sys.argv[1:]
 for name in sorted(os.listdir('/verif/seeded')):
     d = '/verif/seeded/' + name
@@ -27,8 +28,16 @@ for name in sorted(os.listdir('/verif/seeded')):
 with open('/verif/seeded/RESULTS.md', 'w') as f:
     f.write('# Seeded changes versus the checks\n\nEach row: a change to ponyorm/pony written by a fresh sub-agent that saw only the property text '
             '(confirmed: compiles, pinned suite passes, demo fails with it / passes without).  The verdict is what `./check <property> --tier quick` says with the patch applied to /repo '
-            '(HEAD %s).\n\n| seed | property | verdict | rules that fired | change |\n|---|---|---|---|---|\n' % sh('git -C /repo log --format=%h -1').stdout.strip())
-    for row in rows: f.write('| %s | %s | %s | %s | %s |\n' % tuple(str(x).replace('|', '/') for x in row))
+            '(HEAD %s).  "first verdict" is what the checks said the first time the seed was tried (seeded/HISTORY.json, kept by hand): round 1 seeds were written '
+            'while the rules were being built, so only rounds 2+ measure how the rules generalise; a MISSED seed led to the rule named in the last column.\n\n'
+            '| seed | property | round | first verdict | verdict now | rules that fire now | rule added because of it | change |\n|---|---|---|---|---|---|---|---|\n' % sh('git -C /repo log --format=%h -1').stdout.strip())
+    for row in rows:
+        hh = hist.get(row[0], {})
+        f.write('| %s | %s | %s | %s | %s | %s | %s | %s |\n' % tuple(str(x).replace('|', '/') for x in (row[0], row[1], hh.get('round', '?'), hh.get('first_verdict', '?'), row[2], row[3], hh.get('rule_added', ''), row[4])))
+    for rnd in sorted({v['round'] for v in hist.values()}):
+        ks = [k for k, v in hist.items() if v['round'] == rnd]
+        if rnd > 1: f.write('\nRound %d: %d seeds, %d detected at first try, %d missed at first try.' % (rnd, len(ks), sum(1 for k in ks if hist[k]['first_verdict'] == 'DETECTED'), sum(1 for k in ks if hist[k]['first_verdict'] == 'MISSED')))
+    f.write('\n')
     det = sum(1 for r in rows if r[2] == 'DETECTED')
     f.write('\n%d of %d detected.\n' % (det, len(rows)))
 sh('tools/runall.sh', cwd='/verif')   # evidence files must describe the clean tree again
